@@ -255,7 +255,7 @@ def run(ctx):
                     a_, b_, da, db = b_, a_, db, da   # commutative: `rhs * v` is `v * rhs`
                 dl = s_["p"]["l"]
                 lands = dl in vlocals or any(s2["k"] == "assign" and not s2["p"]["pr"] and s2["p"]["l"] in vlocals and s2["rv"]["k"] == "use"
-                                             and any(k in s2["rv"]["o"] and s2["rv"]["o"][k]["l"] == dl and not s2["rv"]["o"][k]["pr"] for k in ("cp", "mv"))
+                                             and g.sym_operand(s2["rv"]["o"])[:2] == ("local", dl)
                                              for _b2, _i2, s2 in g.stmts())   # `let q = v / rhs; v = q;`
                 acc = not s_["p"]["pr"] and lands and is_acc(a_)
                 straight = from_inner(db) and not sym_contains(db, lambda n: n[0] in ("bin", "un"))
